@@ -1,0 +1,26 @@
+//go:build verif
+
+package encoding
+
+// Contracts checked by /verif's govc: the dispatch layer above the scalar encoders (a second, lenient unit
+// of this package: the callees are abstracted, only which encoder is chosen for which value is stated).
+// Comments only; build tag "verif".
+
+//@ unit encodingdispatch
+//@
+//@ extern (client.JSON).* -> (r)
+//@   pure
+//@
+//@ // ===== C17: a JSON leaf is written with the encoder of its own kind and of the requested direction
+//@ func EncodeJSONDescending -> (r)
+//@   ensures res(JSON.String, 1, 1) ==> called(EncodeStringDescending, 1) && sameslice(r, res(EncodeStringDescending, 1, 0))
+//@   ensures !res(JSON.String, 1, 1) && res(JSON.Number, 1, 1) ==> called(EncodeFloat64Descending, 1) && sameslice(r, res(EncodeFloat64Descending, 1, 0))
+//@   ensures !res(JSON.String, 1, 1) && !res(JSON.Number, 1, 1) && res(JSON.Bool, 1, 1) ==> called(EncodeBoolDescending, 1) && sameslice(r, res(EncodeBoolDescending, 1, 0))
+//@   ensures !res(JSON.String, 1, 1) && !res(JSON.Number, 1, 1) && !res(JSON.Bool, 1, 1) && res(JSON.IsNull, 1, 0) ==> called(EncodeNullDescending, 1) && sameslice(r, res(EncodeNullDescending, 1, 0))
+//@   tags C17
+//@ func EncodeJSONAscending -> (r)
+//@   ensures res(JSON.String, 1, 1) ==> called(EncodeStringAscending, 1) && sameslice(r, res(EncodeStringAscending, 1, 0))
+//@   ensures !res(JSON.String, 1, 1) && res(JSON.Number, 1, 1) ==> called(EncodeFloat64Ascending, 1) && sameslice(r, res(EncodeFloat64Ascending, 1, 0))
+//@   ensures !res(JSON.String, 1, 1) && !res(JSON.Number, 1, 1) && res(JSON.Bool, 1, 1) ==> called(EncodeBoolAscending, 1) && sameslice(r, res(EncodeBoolAscending, 1, 0))
+//@   ensures !res(JSON.String, 1, 1) && !res(JSON.Number, 1, 1) && !res(JSON.Bool, 1, 1) && res(JSON.IsNull, 1, 0) ==> called(EncodeNullAscending, 1) && sameslice(r, res(EncodeNullAscending, 1, 0))
+//@   tags C17
